@@ -34,7 +34,7 @@ struct NttCtx {
 static NttCtx& ntt_ctx(uint64_t n) {
   static std::map<uint64_t, NttCtx> cache;
   auto it = cache.find(n);
-  if (it != cache.end()) return it->second;
+  if (it != cache.end()) { spq::maybe_bystander(); return it->second; }
   NttCtx& x = cache[n];
   x.n = n;
   x.f = q120_new_ntt_bb_precomp(n);
@@ -49,6 +49,7 @@ static NttCtx& ntt_ctx(uint64_t n) {
     for (int k = 0; k < 4; ++k) d[k] = 1;
   q120_ntt_bb_avx2(x.f, (q120b*)d);
   x.roots.build(n, d);
+  spq::maybe_bystander();  // other tables / modules of other dimensions come and go while this one stays alive
   return x;
 }
 
